@@ -6,7 +6,7 @@ EXTENDS Sequences
 W0 == <<"", "">>                       \* no whitespace-control markers
 V(name)      == [k |-> "var", segs |-> <<[t |-> "k", v |-> name]>>]
 VP(name, p)  == [k |-> "var", segs |-> <<[t |-> "k", v |-> name], [t |-> "k", v |-> p]>>]
-VI(name, i)  == [k |-> "var", segs |-> <<[t |-> "k", v |-> name], [t |-> "i", v |-> i]>>]
+VI(name, i)  == [k |-> "var", segs |-> <<[t |-> "k", v |-> name], [t |-> "i", i |-> i]>>]
 S(s)         == [k |-> "str", v |-> s]
 I(n)         == [k |-> "int", v |-> n]
 NilE         == [k |-> "nil"]
@@ -63,7 +63,23 @@ ParamD(n, e)    == [n |-> n, has |-> TRUE, e |-> e]
 Macro(n, params, b) == [k |-> "macro", n |-> n, params |-> params, body |-> b, wc |-> W0, ewc |-> W0]
 Call(n, args, kwargs) == [k |-> "call", n |-> n, args |-> args, kwargs |-> kwargs, wc |-> W0]
 
+Fk(n, args, kw) == [n |-> n, args |-> args, kw |-> kw]        \* filter with keyword arguments
+Lam(params, body) == [k |-> "lambda", params |-> params, body |-> body]
+ArrLit(items) == [k |-> "arrlit", items |-> items]
+TStr(parts, q) == [k |-> "tstr", parts |-> parts, q |-> q]
+SQ(s, q) == [k |-> "str", v |-> s, q |-> q]
+Path(segs) == [k |-> "var", segs |-> segs]
+Key(s) == [t |-> "k", v |-> s]
+KeyB(s) == [t |-> "k", v |-> s, br |-> TRUE]
+Idx(i) == [t |-> "i", i |-> i]
+Sub(segs) == [t |-> "p", p |-> segs]
+TableRow(n, it, itsrc, limit, offset, cols, b) ==
+  [k |-> "tablerow", n |-> n, it |-> it, itsrc |-> itsrc, limit |-> limit, offset |-> offset, rev |-> FALSE,
+   cols |-> cols, body |-> b, wc |-> W0, ewc |-> W0]
+\* a liquid tag: its body nodes are printed as line statements
+LiquidTag(b) == [k |-> "liquid", body |-> b, wc |-> W0]
+
 \* configuration record (defaults of Environment)
 Cfg(trim, suppress, ae, undef) ==
-  [trim |-> trim, suppress |-> suppress, autoescape |-> ae, undef |-> undef, depthlimit |-> 30]
+  [trim |-> trim, suppress |-> suppress, autoescape |-> ae, undef |-> undef, depthlimit |-> 30, shopify |-> FALSE]
 =============================================================================
